@@ -103,6 +103,7 @@ def check(run, prog):
         ("np.add(s16, I64): int16 signal plus int64 array", uf("add", 2, 1), [s16, i64], {}, s16),
         ("np.modf(w32)", uf("modf", 1, 2), [w32], {}, w32),
     ]
+    dask_out_rule(ck, prog, "R2")
     for label, ufunc, inputs, kw, selfv in plans:
         ev = ck.evaluator()
         r = ck.attempt("R2", fi.where, label, "evaluates", lambda: ev.call(fi, [ufunc, StrV("__call__")] + inputs, dict(kw), self_val=selfv), ev=ev,
@@ -177,6 +178,82 @@ def check(run, prog):
     run.extra["decided_by"] = ck.how
 
 
+
+
+
+def dask_out_rule(ck, prog, rule):
+    """Dask-backed signals as out= targets: Dask "fills" an out= array by re-pointing it at the result (dtype included), and its
+    multi-output ufuncs take no out= at all; the signal named as target must nevertheless end up as NumPy would leave it
+    (own dtype kept, or the operation refused with TypeError)."""
+    fi = prog.func("Signal.__array_ufunc__")
+    ck.run.touched(fi)
+    a64 = Num(sp.Symbol("A64"), kind="array", shape=(N, 2), tag="data", backend="numpy", dtype=ExtV("numpy.float64"))
+    sc = Num(sp.Symbol("c", real=True))
+    cj = Num(sp.I)
+
+    def mk(cls, dt, name):          # a fresh target per plan: a target re-pointed by one plan must not be the next plan's input
+        return make_signal(prog, cls, nchan=2, name=name, dtype=dt, backend="dask")
+    plans = [
+        ("np.add(zd32, A64, out=(zd32,)) on Dask data  [zd32 += A64]", uf("add", 2, 1), lambda z: [z, a64], lambda z: [z], ("BasebandSignal", "complex64")),
+        ("np.add(wd32, c, out=(wd32,)) on Dask data  [wd32 += c]", uf("add", 2, 1), lambda z: [z, sc], lambda z: [z], ("IntensitySignal", "float32")),
+        ("np.multiply(wd32, 1j, out=(wd32,)) on Dask data  [wd32 *= 1j]", uf("multiply", 2, 1), lambda z: [z, cj], lambda z: [z], ("IntensitySignal", "float32")),
+        ("np.greater(wd64, c, out=(wd64,)) on Dask data", uf("greater", 2, 1), lambda z: [z, sc], lambda z: [z], ("IntensitySignal", "float64")),
+        ("np.modf(wd32, out=(None, wd64)) on Dask data", uf("modf", 1, 2), lambda z: [z], lambda z: [NONE, mk("IntensitySignal", "float64", "wd64")], ("IntensitySignal", "float32")),
+    ]
+    for label, ufunc, ins, outs, (cls, dt) in plans:
+        z = mk(cls, dt, "zd")
+        dask_out_plan(ck, prog, fi, ck.evaluator(), label, ufunc, ins(z), {"out": TupleV(outs(z))}, z, rule)
+    ck.run.floor(rule, "out=/in-place forms with a Dask-backed signal as target", len(plans), 5)
+
+def dask_out_plan(ck, prog, fi, ev, label, ufunc, inputs, kw, selfv, rule="R2"):
+    """One out=/in-place call whose target is a Dask-backed signal.  Acceptable outcomes are NumPy's: TypeError when the result
+    cannot be cast to the target's dtype under same_kind, otherwise the very target object handed back, still of its class, with
+    its own dtype, shape and metadata, its data holding that ufunc output."""
+    from ..extapi import ufunc_result_dtype
+    targets = [t for t in kw["out"].items if isinstance(t, ObjV)]
+    before = {id(t): (t.attrs["_data"].dtype, t.attrs["_data"].shape, dict(t.attrs)) for t in targets}
+    unwrap = lambda v: v.attrs["_data"] if isinstance(v, ObjV) else v  # noqa: E731
+    res_dt = ufunc_result_dtype(ufunc.dotted.split(":")[1], [unwrap(v) for v in inputs], {})
+    castable = {}
+    for t in targets:
+        a, b = _dtype_short(res_dt), _dtype_short(before[id(t)][0])
+        import numpy as _np
+        castable[id(t)] = bool(_np.can_cast(_np.dtype(a), _np.dtype(b), casting="same_kind")) if a and b else None
+    try:
+        r = ev.call(fi, [ufunc, StrV("__call__")] + inputs, dict(kw), self_val=selfv)
+    except Raised as e:
+        refused_ok = e.exc_name in ("TypeError", "UFuncTypeError") and any(v is False for v in castable.values())
+        ck.same(rule, fi.where, label, "a result that cannot be cast to the target's dtype is refused with TypeError; everything else is carried out",
+                refused_ok, found=str(e)[:160], nontrivial=True)
+        return
+    except Unsupported as e:
+        ck.unk(rule, fi.where, label, "evaluates", str(e)[:200])
+        return
+    results = list(r.items) if isinstance(r, TupleV) else [r]
+    given = list(kw["out"].items)
+    for k, (res, g) in enumerate(zip(results, given)):
+        if not isinstance(g, ObjV):
+            continue
+        d = g.attrs["_data"]
+        dt0, shp0, attrs0 = before[id(g)]
+        keeps = isinstance(d, Num) and isinstance(d.dtype, ExtV) and isinstance(dt0, ExtV) and d.dtype.dotted == dt0.dotted
+        meta_kept = all(g.attrs.get(k_) is v_ for k_, v_ in attrs0.items() if k_ != "_data")
+        ok = res is g and keeps and meta_kept and castable[id(g)] is not False
+        why = []
+        if res is not g:
+            why.append("another object is handed back")
+        if not keeps:
+            why.append(f"the target's data now has dtype {getattr(d, 'dtype', None)!r} (was {dt0!r})")
+        if castable[id(g)] is False:
+            why.append(f"a {_dtype_short(res_dt)} result was put into a {_dtype_short(dt0)} signal without complaint")
+        if not meta_kept:
+            why.append("metadata changed")
+        ck.same(rule, fi.where, label + f": target {k}", "the Dask-backed target is left as NumPy would leave it: same object, its own dtype and metadata "
+                "(a result of another kind is refused, never adopted)", ok, found="; ".join(why) or None, nontrivial=True)
+
+
+def _dtype_short(dt):
+    return dt.dotted.split(".")[-1] if isinstance(dt, ExtV) and dt.dotted.startswith("numpy.") else None
 
 def array_copy_protocol(ck, prog, rule, z=None):
     """The copy argument of the __array__ protocol: NumPy 2 calls __array__(copy=True) for np.array(z) / np.copy(z) /
